@@ -48,6 +48,9 @@ def M2():
     sub(SE, "        self._matA = np.copy(qt.calc_matA())\n        self._vecB = np.copy(qt.calc_vecB())\n        self._calc_extend_weight_matrix()",
         "        if getattr(self, \"_matA\", None) is None:\n            self._matA = np.copy(qt.calc_matA())\n"
         "            self._vecB = np.copy(qt.calc_vecB())\n        self._calc_extend_weight_matrix()")
+    sub(SE, "        self._matA = np.copy(qt.calc_matA())\n        self._calc_extend_weight_matrix()\n\n        self._on_func_gradient_prob_dists = True",
+        "        if getattr(self, \"_matA\", None) is None:\n            self._matA = np.copy(qt.calc_matA())\n"
+        "        self._calc_extend_weight_matrix()\n\n        self._on_func_gradient_prob_dists = True")
 
 
 def M4():
